@@ -3,6 +3,7 @@ package checks
 import (
 	"bytes"
 	"fmt"
+	"strings"
 	"testing/iotest"
 
 	"github.com/wkhere/bcl"
@@ -69,11 +70,45 @@ func loadPrefix(d []byte, mode string) (err error, panicked string) {
 	case "disasm":
 		// with the disassembly option on: a failed load must not be disassembled
 		_, err, _, _ = impl.Load(r, bcl.OptDisasm(true), bcl.OptStats(true), bcl.OptTrace(true))
+	case "filelike":
+		// a reader that also has Close and Name, like *os.File
+		_, err, _, _ = impl.Load(&fileLike{Reader: r})
+	case "retry":
+		// an interrupted load is followed by another attempt on the SAME Prog: the second load of the same
+		// prefix fails again, and loading the complete dump succeeds and gives the complete program
+		var p *bcl.Prog
+		p, err, _, _ = impl.Load(r)
+		if err == nil || p == nil {
+			return err, ""
+		}
+		if err2 := p.Load(bytes.NewReader(d)); err2 == nil {
+			return nil, ""
+		}
+		if c13Full != nil {
+			if err3 := p.Load(bytes.NewReader(c13Full)); err3 != nil {
+				return err, "after a truncated load, loading the complete dump into the same Prog fails: " + err3.Error()
+			}
+			var back bytes.Buffer
+			if derr := p.Dump(&back); derr != nil || !bytes.Equal(back.Bytes(), c13Full) {
+				return err, fmt.Sprintf("after a truncated load and a complete one, the Prog dumps %d bytes (err %v), not the %d loaded", back.Len(), derr, len(c13Full))
+			}
+		}
 	default:
 		_, err, _, _ = impl.Load(r)
 	}
 	return err, ""
 }
+
+// c13Full: the complete dump the current prefixes are cut from (for the retry mode)
+var c13Full []byte
+
+type fileLike struct {
+	*bytes.Reader
+	closed int
+}
+
+func (f *fileLike) Close() error { f.closed++; return nil }
+func (f *fileLike) Name() string { return "input.bcb" }
 
 var subC13Cuts = &fw.Sub{
 	Name: "c13.cuts",
@@ -97,6 +132,8 @@ var subC13Cuts = &fw.Sub{
 		var firstBad string
 		bad := 0
 		n := 0
+		c13Full = d
+		defer func() { c13Full = nil }()
 		for cut := c.From; cut < c.To && cut < len(d); cut++ {
 			if c.Stride > 1 && !(near[cut] || cut < 64 || cut >= len(d)-64 || cut%c.Stride == 0) {
 				continue
@@ -108,6 +145,9 @@ var subC13Cuts = &fw.Sub{
 				bad++
 				if firstBad == "" {
 					firstBad = fmt.Sprintf("cut %d of %d: panic: %s", cut, len(d), pan)
+					if strings.HasPrefix(pan, "after ") {
+						firstBad = fmt.Sprintf("cut %d of %d: %s", cut, len(d), pan)
+					}
 				}
 			case err == nil:
 				bad++
@@ -198,7 +238,7 @@ func init() {
 		ID:    "C13",
 		Level: "fault_enumeration",
 		Rule: "for every accepted program of the core corpus K and the scaled families S: every cut point 0..len-1 of its dump " +
-			"(quick: all cuts for dumps <=4 kB, section boundaries ±9 / first+last 64 / every 97th for larger ones), delivered whole, one byte per read, and whole with the disassembly/trace/statistics options on; " +
+			"(quick: all cuts for dumps <=4 kB, section boundaries ±9 / first+last 64 / every 97th for larger ones), delivered whole, one byte per read, whole with the disassembly/trace/statistics options on, through a reader that also has Close and Name (like *os.File), and followed by a retry on the same Prog (the prefix again, then the complete dump, which must load and dump back byte-identically); " +
 			"all 2^16 magic values and 2^16 version pairs. A case is a (program, delivery, cut range); non-trivial = at least one load executed; " +
 			"counters.cut_points counts the loads of proper prefixes.",
 		Subs:           []*fw.Sub{subC13Cuts, subC13Header},
@@ -239,8 +279,8 @@ func init() {
 					stride = 7
 					c.Cap("dumps >200 kB: every 7th cut + section boundaries")
 				}
-				for _, mode := range []string{"whole", "byte", "disasm"} {
-					if mode == "disasm" && len(d) > 20000 {
+				for _, mode := range []string{"whole", "byte", "disasm", "filelike", "retry"} {
+					if mode != "whole" && mode != "byte" && len(d) > 20000 {
 						continue
 					}
 					for from := 0; from < len(d); from += chunk {
